@@ -189,4 +189,323 @@ theorem finer_eq_big (prec : Nat) (emin emaxE : Int) (m : Nat) (e : Int) (d d' i
     exact Nat.eq_of_mul_eq_mul_right hT this
   rw [rs_units m' e' emin d he' hmin, rs_units m e emin d he hmin, hY]
 
+/-- both cases together, for doubles -/
+theorem finer_ge (m : Nat) (e : Int) (d d' i m' : Nat) (e' : Int) (hm : m < 2 ^ 53) (he : -1074 ≤ e)
+    (hdd : d' < d) (hn : nearest (roundScaled m e d') (10 ^ d') = some (m', e'))
+    (hx : 10 ^ (i + d) ≤ roundScaled m e d) : 10 ^ (i + d) ≤ roundScaled m' e' d := by
+  by_cases h5 : 5 ^ i < 2 ^ 53
+  · exact finer_ge_small 53 (-1074) 971 m e d d' i m' e' (by decide) (by decide) he hdd h5 hn hx
+  · rw [finer_eq_big 53 (-1074) 971 m e d d' i m' e' (by decide) (by decide) hm he (by omega) hn hx]
+    exact hx
+
+/-- more digits in `n₂` wherever `n₁` reaches a power of ten: the padded digit string is at least as long -/
+theorem fdigits_length_mono (n1 n2 d : Nat) (h : ∀ i, 10 ^ (i + d) ≤ n1 → 10 ^ (i + d) ≤ n2) :
+    (fdigits n1 d).length ≤ (fdigits n2 d).length := by
+  have hb := fdigits_length n2 d
+  by_cases hl : (natDigits n1).length ≤ d + 1
+  · have : (fdigits n1 d).length = d + 1 := by
+      unfold fdigits zeros
+      split
+      · simp; omega
+      · omega
+    omega
+  · -- n1 has L1 ≥ d + 2 digits: n1 ≥ 10^(L1-1)
+    have e1 : fdigits n1 d = natDigits n1 := by
+      unfold fdigits; rw [if_neg (by omega)]
+    obtain ⟨i, hi⟩ : ∃ i, (natDigits n1).length = (i + d) + 1 := ⟨(natDigits n1).length - 1 - d, by omega⟩
+    have hk : 0 < i + d := by omega
+    have h1 : 10 ^ (i + d) ≤ n1 := by
+      apply Nat.le_of_not_lt
+      intro hlt
+      have := (Nat.length_toDigits_le_iff (b := 10) (n := n1) (by omega) hk).2 hlt
+      unfold natDigits at hi
+      omega
+    have h2 := h i h1
+    have h3 : ¬ (natDigits n2).length ≤ i + d := by
+      intro hle
+      have := (Nat.length_toDigits_le_iff (b := 10) (n := n2) (by omega) hk).1 hle
+      omega
+    have e2 : (natDigits n2).length ≤ (fdigits n2 d).length := by
+      unfold fdigits
+      split <;> simp
+    rw [e1]; omega
+
+/-! ### no overflow below `2^1022` -/
+
+theorem nearestG_none (prec : Nat) (emin emaxE : Int) (num den : Nat)
+    (h : nearestG prec emin emaxE num den = none) :
+    num ≠ 0 ∧ emaxE ≤ max (floorLog2 num den - ((prec : Int) - 1)) emin := by
+  unfold nearestG at h
+  by_cases hn : num = 0
+  · simp [hn] at h
+  · simp only [beq_iff_eq, hn, if_false] at h
+    refine ⟨hn, ?_⟩
+    split at h
+    · simp only [] at h
+      split at h
+      · rename_i hgt; simp only [Int.ofNat_eq_natCast] at hgt; omega
+      · simp at h
+    · simp only [] at h
+      split at h
+      · rename_i hgt; simp only [Int.ofNat_eq_natCast] at hgt; omega
+      · simp at h
+
+theorem nearest_some (n den : Nat) (hden : 0 < den) (h : n < 2 ^ 1022 * den) :
+    ∃ m e, nearest n den = some (m, e) := by
+  cases hn : nearest n den with
+  | some me => exact ⟨me.1, me.2, rfl⟩
+  | none =>
+    exfalso
+    obtain ⟨hn0, hk⟩ := nearestG_none 53 (-1074) 971 n den hn
+    have hle := leP2_floorLog2 n den hn0
+    have hk' : 1023 ≤ floorLog2 n den := by omega
+    unfold leP2 at hle
+    have h0 : floorLog2 n den ≥ 0 := by omega
+    simp only [h0, if_true, decide_eq_true_eq] at hle
+    have h1 : 2 ^ 1023 ≤ 2 ^ (floorLog2 n den).toNat := Nat.pow_le_pow_right (by decide) (by omega)
+    have h2 := Nat.mul_le_mul_left den h1
+    have e1 : (2 : Nat) ^ 1023 = 2 * 2 ^ 1022 := by rw [← Nat.pow_succ']
+    rw [e1] at h2
+    generalize 2 ^ (floorLog2 n den).toNat = K at *
+    generalize (2 : Nat) ^ 1022 = C at *
+    have e2 : den * (2 * C) = 2 * (C * den) := by grind
+    omega
+
+/-! ### the loop -/
+
+/-- what the decimals-dropping loop returns -/
+theorem floatLoopF_spec (x : Dbl) (size : Nat) (up : Bool) (dec : Nat) (t : List Char)
+    (h : floatLoopF x size up dec = .ok t) :
+    ∃ d' r', d' ≤ dec ∧ pyRound x d' = some r' ∧ t = fmtF r' d' up ∧ (t.length ≤ size ∨ d' = 0) ∧
+      ∀ d, d' < d → d ≤ dec → ∃ rd, pyRound x d = some rd ∧ size < (fmtF rd d up).length := by
+  induction dec with
+  | zero =>
+    simp only [floatLoopF] at h
+    cases hr : pyRound x ((0 : Nat) : Int) with
+    | none =>
+      have : pyRound x 0 = none := hr
+      simp [this, Option.elim, bind, Except.bind] at h
+    | some r =>
+      have hr' : pyRound x 0 = some r := hr
+      simp [hr', Option.elim, bind, Except.bind, pure, Except.pure] at h
+      exact ⟨0, r, Nat.le_refl _, hr, h.symm, Or.inr rfl, fun d h1 h2 => by omega⟩
+  | succ n ih =>
+    simp only [floatLoopF] at h
+    cases hr : pyRound x ((n + 1 : Nat) : Int) with
+    | none =>
+      have : pyRound x ((n : Int) + 1) = none := by simpa using hr
+      simp [this, Option.elim, bind, Except.bind] at h
+    | some r =>
+      have hr' : pyRound x ((n : Int) + 1) = some r := by simpa using hr
+      simp only [hr', Option.elim, bind, Except.bind] at h
+      by_cases hfit : (fmtF r (n + 1) up).length ≤ size
+      · simp only [hfit, if_true, pure, Except.pure, Except.ok.injEq] at h
+        exact ⟨n + 1, r, Nat.le_refl _, hr, h.symm, Or.inl (by rw [← h]; exact hfit), fun d h1 h2 => by omega⟩
+      · simp only [hfit, if_false] at h
+        obtain ⟨d', r', h1, h2, h3, h4, h5⟩ := ih h
+        refine ⟨d', r', by omega, h2, h3, h4, fun d hd1 hd2 => ?_⟩
+        by_cases hdn : d = n + 1
+        · subst hdn; exact ⟨r, hr, by omega⟩
+        · exact h5 d hd1 (by omega)
+
+/-- and conversely -/
+theorem floatLoopF_of_spec (y : Dbl) (size : Nat) (up : Bool) (dec d' : Nat) (r : Dbl) (hd : d' ≤ dec)
+    (hr : pyRound y d' = some r) (hfit : (fmtF r d' up).length ≤ size ∨ d' = 0)
+    (hno : ∀ d, d' < d → d ≤ dec → ∃ rd, pyRound y d = some rd ∧ size < (fmtF rd d up).length) :
+    floatLoopF y size up dec = .ok (fmtF r d' up) := by
+  induction dec with
+  | zero =>
+    have : d' = 0 := by omega
+    subst this
+    simp only [floatLoopF]
+    have hr' : pyRound y 0 = some r := hr
+    simp [hr', Option.elim, bind, Except.bind, pure, Except.pure]
+  | succ n ih =>
+    simp only [floatLoopF]
+    by_cases hdn : d' = n + 1
+    · subst hdn
+      have hr' : pyRound y ((n : Int) + 1) = some r := by simpa using hr
+      have hf : (fmtF r (n + 1) up).length ≤ size := by
+        rcases hfit with h | h
+        · exact h
+        · omega
+      simp [hr', Option.elim, bind, Except.bind, hf, pure, Except.pure]
+    · obtain ⟨rd, h1, h2⟩ := hno (n + 1) (by omega) (Nat.le_refl _)
+      have hr' : pyRound y ((n : Int) + 1) = some rd := by simpa using h1
+      have hf : ¬ (fmtF rd (n + 1) up).length ≤ size := by omega
+      simp only [hr', Option.elim, bind, Except.bind, hf, if_false]
+      exact ih (by omega) (fun d hd1 hd2 => hno d hd1 (by omega))
+
+/-! ### stability of the loop -/
+
+theorem body_length (neg : Bool) (n d : Nat) :
+    (body neg (fip n d) (ffp n d)).length =
+      (if neg then 1 else 0) + (fdigits n d).length + (if d = 0 then 0 else 1) := by
+  have h1 := ffp_length n d
+  have h2 : (fip n d).length + (ffp n d).length = (fdigits n d).length := by
+    rw [← List.length_append, fip_ffp]
+  unfold body
+  by_cases hd : d = 0
+  · subst hd
+    have h0 : ffp n 0 = [] := List.eq_nil_of_length_eq_zero h1
+    rw [h0] at h2 ⊢
+    cases neg <;> simp at h2 ⊢ <;> omega
+  · have : (ffp n d).isEmpty = false := by
+      cases h : (ffp n d).isEmpty with
+      | false => rfl
+      | true => rw [List.isEmpty_iff_length_eq_zero] at h; omega
+    cases neg <;> simp [this, hd] <;> omega
+
+/-- doubles below `2^1014` in magnitude -/
+def wfs (m : Nat) (e : Int) : Prop := m < 2 ^ 53 ∧ -1074 ≤ e ∧ e ≤ 960
+
+theorem wf_of_wfs {m : Nat} {e : Int} (h : wfs m e) : wf m e := ⟨h.1, h.2.1, by have := h.2.2; omega⟩
+
+/-- the value read back is within one unit of `x` (in units of `2^-1074`), generic form -/
+theorem round_close (prec : Nat) (emin emaxE : Int) (m : Nat) (e : Int) (d' m' : Nat) (e' : Int)
+    (hp : 1 ≤ prec) (hmin : emin ≤ 0) (hm : m < 2 ^ prec) (he : emin ≤ e)
+    (hn : nearestG prec emin emaxE (roundScaled m e d') (10 ^ d') = some (m', e')) :
+    units emin m' e' ≤ units emin m e + 2 ^ (-emin).toNat := by
+  obtain ⟨_, hopt⟩ := nearestG_opt prec emin emaxE _ _ m' e' hp hmin (ten_pow_pos d') hn
+  have h := hopt m (e - emin).toNat hm
+  have c1 : m * 2 ^ (e - emin).toNat = units emin m e := rfl
+  rw [c1] at h
+  have r1 := rs_units m e emin d' he hmin
+  obtain ⟨s1, s2, _⟩ := divHE_spec (units emin m e * 10 ^ d') (2 ^ (-emin).toNat) (two_pow_pos _)
+  rw [← r1] at s1 s2
+  have hT := ten_pow_pos d'
+  generalize roundScaled m e d' = n at *
+  generalize 2 ^ (-emin).toNat = U at *
+  generalize units emin m e = X at *
+  generalize units emin m' e' = Y at *
+  generalize 10 ^ d' = T at *
+  -- Y·T ≤ X·T + U ≤ (X + U)·T
+  have h3 : Y * T ≤ X * T + U := by omega
+  have h4 : U * 1 ≤ U * T := Nat.mul_le_mul_left U hT
+  have e1 : (X + U) * T = X * T + U * T := by grind
+  exact Nat.le_of_mul_le_mul_right (c := T) (by omega) hT
+
+theorem two_1014_lt : (2 : Nat) ^ 1014 < 2 ^ 1022 := Nat.pow_lt_pow_right (by decide) (by decide)
+
+/-- `round(y, d)` does not overflow for a value within one unit of a double below `2^1013` -/
+theorem pyRound_some_of_close (neg : Bool) (m' : Nat) (e' : Int) (he' : -1074 ≤ e') (d : Nat) (hd : d ≤ 323)
+    (hY : units (-1074) m' e' < 2 ^ 1014 * 2 ^ (-(-1074 : Int)).toNat) :
+    ∃ sm se, nearest (roundScaled m' e' d) (10 ^ d) = some (sm, se) ∧
+      pyRound (.fin neg m' e') d = some (.fin neg sm se) := by
+  have r1 := rs_units m' e' (-1074) d he' (by decide)
+  obtain ⟨_, s2, _⟩ := divHE_spec (units (-1074) m' e' * 10 ^ d) (2 ^ (-(-1074 : Int)).toNat) (two_pow_pos _)
+  rw [← r1] at s2
+  have hb := round_bound _ _ _ _ _ (two_pow_pos _) hY s2
+  have hlt : roundScaled m' e' d < 2 ^ 1022 * 10 ^ d :=
+    Nat.lt_of_le_of_lt hb (Nat.mul_lt_mul_of_pos_right two_1014_lt (ten_pow_pos d))
+  obtain ⟨sm, se, hs⟩ := nearest_some _ _ (ten_pow_pos d) hlt
+  refine ⟨sm, se, hs, ?_⟩
+  unfold pyRound
+  have a1 : ¬ ((d : Int) > 323) := by omega
+  have a2 : ¬ ((d : Int) < -308) := by omega
+  have a3 : (d : Int) ≥ 0 := by omega
+  have z2 : ((d : Int)).toNat = d := by omega
+  simp only [a1, a2, a3, if_true, if_false, z2, hs]
+
+/-- **The decimals-dropping loop is stable**: if `x` (finite, below `2^1013`) is written as
+`t` with `d'` decimals and `t` fits, then `r' = round(x, d')` — the value `t` reads back as —
+is written as `t` too. -/
+theorem loop_stable (neg : Bool) (m : Nat) (e : Int) (hwf : wfs m e) (size : Nat) (up : Bool) (dec : Nat)
+    (hdec : dec ≤ 323) (t : List Char) (h : floatLoopF (.fin neg m e) size up dec = .ok t)
+    (hfit : t.length ≤ size) :
+    ∃ d' r', d' ≤ dec ∧ pyRound (.fin neg m e) d' = some r' ∧ t = fmtF r' d' up ∧
+      floatLoopF r' size up dec = .ok t ∧
+      ∀ d, d' < d → d ≤ dec → ∃ rd, pyRound (.fin neg m e) d = some rd ∧ size < (fmtF rd d up).length := by
+  obtain ⟨d', r', hd', hr', ht, _, hno⟩ := floatLoopF_spec _ size up dec t h
+  refine ⟨d', r', hd', hr', ht, ?_, hno⟩
+  have hwf' := wf_of_wfs hwf
+  obtain ⟨_, hidem, _⟩ := float_fmtF_round neg m e d' hwf' (by omega) r' hr' 0 up
+  obtain ⟨m', e', hn', rfl⟩ := pyRound_fin neg m e d' (by omega) r' hr'
+  obtain ⟨he', _⟩ := nearestG_opt 53 (-1074) 971 _ _ m' e' (by decide) (by decide) (ten_pow_pos d') hn'
+  have hm' : m' < 2 ^ 53 := nearestG_lt 53 (-1074) 971 _ _ m' e' (by decide) (by decide) (ten_pow_pos d') hn'
+  -- the value read back is below 2^1014
+  have hclose := round_close 53 (-1074) 971 m e d' m' e' (by decide) (by decide) hwf.1 hwf.2.1 hn'
+  have hX : units (-1074) m e < 2 ^ 1013 * 2 ^ (-(-1074 : Int)).toNat := by
+    unfold units
+    have e1 : (e - (-1074)).toNat ≤ 960 + 1074 := by have := hwf.2.2; omega
+    calc m * 2 ^ (e - (-1074)).toNat < 2 ^ 53 * 2 ^ (e - (-1074)).toNat :=
+          Nat.mul_lt_mul_of_pos_right hwf.1 (two_pow_pos _)
+      _ ≤ 2 ^ 53 * 2 ^ (960 + 1074) := Nat.mul_le_mul_left _ (Nat.pow_le_pow_right (by decide) e1)
+      _ = 2 ^ 1013 * 2 ^ (-(-1074 : Int)).toNat := by
+          have eU : (-(-1074 : Int)).toNat = 1074 := by decide
+          rw [eU, ← Nat.pow_add, ← Nat.pow_add]
+  have hY : units (-1074) m' e' < 2 ^ 1014 * 2 ^ (-(-1074 : Int)).toNat := by
+    have e2 : (2 : Nat) ^ 1014 = 2 * 2 ^ 1013 := by rw [← Nat.pow_succ']
+    rw [e2]
+    have hU := two_pow_pos (-(-1074 : Int)).toNat
+    generalize 2 ^ (-(-1074 : Int)).toNat = U at *
+    generalize (2 : Nat) ^ 1013 = C at *
+    have e3 : 2 * C * U = C * U + C * U := by grind
+    have hC : U ≤ C * U := by
+      have : 1 ≤ C := by
+        have := hX; apply Nat.pos_of_ne_zero; intro h0; subst h0; simp at this
+      exact Nat.le_mul_of_pos_left U this
+    omega
+  rw [ht] at hfit ⊢
+  apply floatLoopF_of_spec _ size up dec d' _ hd' hidem (Or.inl hfit)
+  intro d hd1 hd2
+  obtain ⟨rd, hrd, hlen⟩ := hno d hd1 hd2
+  -- x's rendering at d decimals
+  obtain ⟨xm, xe, hxn, rfl⟩ := pyRound_fin neg m e d (by omega) rd hrd
+  obtain ⟨_, hxfix⟩ := round_fixed m e d xm xe hwf.1 hwf.2.1 hxn
+  have hxf := fmtF_fin neg xm xe d up
+  rw [hxfix] at hxf
+  -- r's rendering at d decimals
+  obtain ⟨sm, se, hsn, hsr⟩ := pyRound_some_of_close neg m' e' he' d (by omega) hY
+  obtain ⟨_, hsfix⟩ := round_fixed m' e' d sm se hm' he' hsn
+  have hsf := fmtF_fin neg sm se d up
+  rw [hsfix] at hsf
+  refine ⟨_, hsr, ?_⟩
+  rw [hxf, body_length] at hlen
+  rw [hsf, body_length]
+  have hmono := fdigits_length_mono (roundScaled m e d) (roundScaled m' e' d) d
+    (fun i hi => finer_ge m e d d' i m' e' hwf.1 hwf.2.1 hd1 hn' hi)
+  omega
+
+/-! ### the field -/
+open Proofs.FloatLaw
+
+/-- `FloatField._textual_write` in F notation, in terms of the loop -/
+theorem renderText_fltF_loop (f : Field) (dec : Nat) (fmt c : Char) (hk : f.kind = .flt dec fmt [c])
+    (hfmt : fmt = 'F' ∨ fmt = 'f') (x : Dbl) (hn : x.isNaN = false) :
+    renderText f (.dbl x) =
+      (floatLoopF x f.size (fmt == 'F') dec).map fun s => rjust (subst1 '.' c s) f.size ' ' := by
+  unfold renderText renderRaw renderFull
+  rcases hfmt with rfl | rfl
+  · cases h : floatLoopF x f.size true dec <;> simp [hk, Val.isNull, hn, h, Except.map, replace_single]
+  · cases h : floatLoopF x f.size false dec <;> simp [hk, Val.isNull, hn, h, Except.map, replace_single]
+
+/-- **F-notation float fields, general case** (decimals reduced until the text fits): for every
+finite double below `2^1013` whose rendering fits the field, the text written is `size` wide,
+parses to the double `r` nearest to the decimal emitted, and writing `r` gives the same text. -/
+theorem fltF_core_gen (f : Field) (dec : Nat) (fmt c : Char) (hk : f.kind = .flt dec fmt [c])
+    (hfmt : fmt = 'F' ∨ fmt = 'f') (hc1 : c ≠ ' ') (hc2 : c.isDigit = false) (hc3 : c ≠ '-')
+    (neg : Bool) (m : Nat) (e : Int) (hwf : wfs m e) (hdec : dec ≤ 323) (s : List Char)
+    (hs : floatLoopF (.fin neg m e) f.size (fmt == 'F') dec = .ok s) (hfit : s.length ≤ f.size) :
+    ∃ t r d', renderText f (.dbl (.fin neg m e)) = .ok t ∧ t.length = f.size ∧
+      parseText f.kind t = some (.dbl r) ∧ renderText f (.dbl r) = .ok t ∧ d' ≤ dec ∧
+      pyRound (.fin neg m e) d' = some r ∧
+      t = rjust (subst1 '.' c (body neg (fip (roundScaled m e d') d') (ffp (roundScaled m e d') d'))) f.size ' ' ∧
+      ∀ d, d' < d → d ≤ dec → ∃ rd, pyRound (.fin neg m e) d = some rd ∧ f.size < (fmtF rd d (fmt == 'F')).length := by
+  obtain ⟨d', r, hd', hr, hst, hloop, hno⟩ := loop_stable neg m e hwf f.size (fmt == 'F') dec hdec s hs hfit
+  obtain ⟨hpf, _, hbody⟩ := float_fmtF_round neg m e d' (wf_of_wfs hwf) (by omega) r hr (f.size - s.length) (fmt == 'F')
+  obtain ⟨m', e', _, hrfin⟩ := pyRound_fin neg m e d' (by omega) r hr
+  have hrn : r.isNaN = false := by rw [hrfin]; rfl
+  refine ⟨rjust (subst1 '.' c s) f.size ' ', r, d', ?_, ?_, ?_, ?_, hd', hr, by rw [hst, hbody], hno⟩
+  · rw [renderText_fltF_loop f dec fmt c hk hfmt _ rfl, hs]; rfl
+  · simp only [rjust, List.length_append, List.length_replicate, subst1_length]; omega
+  · rw [hk]
+    simp only [parseText, replace_single, rjust, subst1_length]
+    have hdig : ∀ x ∈ fip (roundScaled m e d') d' ++ ffp (roundScaled m e d') d', x.isDigit = true := by
+      rw [fip_ffp]; exact fdigits_isDigit _ _
+    rw [hst, hbody, sep_back c hc1 hc2 hc3 _ neg _ _ hdig, ← hbody]
+    rw [hst] at hpf
+    rw [hpf]; rfl
+  · rw [renderText_fltF_loop f dec fmt c hk hfmt _ hrn, hloop]; rfl
+
 end Proofs.FloatLoop
